@@ -74,8 +74,11 @@ class CacheWorld:
         # ahead; cache files the server writes meanwhile get their mtime moved ahead by the same amount
         self.offset = 0
         self.cf_mtime = {}
-        import pygopherd.handlers.dir as hdir
-        self._hdir, self._realtime = hdir, hdir.time
+        import sys
+        import time as _time
+        import pygopherd.handlers.dir as hdir  # noqa: F401  (make sure it is loaded)
+        import pygopherd.protocols.base  # noqa: F401
+        self._realtime = _time
         world_ = self
 
         class _Clock:
@@ -84,14 +87,21 @@ class CacheWorld:
 
             def __getattr__(self, n):
                 return getattr(world_._realtime, n)
-        hdir.time = _Clock()
+        # the server's clock: every module of the server that has imported `time` sees it (whichever of them the cache
+        # code asks for the time)
+        self._clocked = [m for n, m in list(sys.modules.items())
+                         if n.startswith("pygopherd") and m is not None and getattr(m, "time", None) is _time]
+        clock = _Clock()
+        for m in self._clocked:
+            m.time = clock
         self.nsnap = 0
         self.steps = []
         self.flags = {"hit_after_mutation": False, "cross_protocol_hit": False, "expiry_after_hit": False, "alias_takeover": False, "regeneration_failed": False}
         self.broken = {}
 
     def close(self):
-        self._hdir.time = self._realtime
+        for m in self._clocked:
+            m.time = self._realtime
         world.rmtree(self.base)
 
     def _sync_cache_mtimes(self):
@@ -208,6 +218,18 @@ class CacheWorld:
                 return self._list(d, step["form"])
             finally:
                 self._sync_cache_mtimes()
+        elif op == "slowlist":
+            # a client whose request arrives in two pieces, `dt` seconds apart (the request line, then the header block): the
+            # time passes while the server waits for the rest, i.e. before it decides about the cache
+            dt = step["dt"]
+            while any(abs(c["age"] + dt - self.lifetime) < 4 for c in self.cache.values()):
+                dt += 9
+            for c in self.cache.values():
+                c["age"] += dt
+            try:
+                return self._list(d, step["form"], stall=dt)
+            finally:
+                self._sync_cache_mtimes()
         elif op == "peek":
             # a request that looks at the directory without listing it (HTTP HEAD, Gopher+ item info): it must not
             # leave a cache entry behind (nothing was rendered) nor disturb an existing one
@@ -223,14 +245,33 @@ class CacheWorld:
         r = drive.serve(cfg, clients.encode(form, dsel.encode()), tls=clients.FORMS[form][0])
         return r
 
-    def _list(self, dsel, form):
+    def _serve(self, req, tls, stall):
+        if not stall:
+            return drive.serve(self.cfg, req, tls=tls)
+        fired = [False]
+
+        def hook(raw):
+            if raw.calls == 2 and not fired[0]:
+                fired[0] = True
+                self.offset += stall
+        drive.SEGMENT_HOOK[0] = hook
+        try:
+            return drive.serve(self.cfg, req, tls=tls, segment=req.index(b"\n") + 1)
+        finally:
+            drive.SEGMENT_HOOK[0] = None
+            if not fired[0]:
+                self.offset += stall  # (the server never asked for the rest: the time passes afterwards)
+                if self.ctx is not None:
+                    self.ctx.label("slow-client:rest-never-read")
+
+    def _list(self, dsel, form, stall=0):
         key = PHYS.get(dsel, dsel)
         c = self.cache.get(key)
         # one cache file per directory: an entry written under the directory's other name is not used (and is replaced)
         hit = self.lifetime > 0 and c is not None and c["age"] < self.lifetime and c.get("sel", key) == dsel
         if c is not None and c.get("sel", key) != dsel:
             self.flags["alias_takeover"] = True
-        r = drive.serve(self.cfg, clients.encode(form, dsel.encode()), tls=clients.FORMS[form][0])
+        r = self._serve(clients.encode(form, dsel.encode()), clients.FORMS[form][0], stall)
         fails = []
         errored = r.escaped is not None or bool(r.exception_classes())
         if errored and not self.broken.get(key):
@@ -377,6 +418,16 @@ class CacheMachine(RuleBasedStateMachine):
             self._do({"op": "grow", "dir": d, "idx": idx, "n": 5000})
         self._do({"op": "advance", "dt": dt, "how": how})
         self._do({"op": "list", "dir": d, "form": f2})
+
+    @rule(d=st.sampled_from(LIST_DIRS), f1=st.sampled_from(FORMS), f2=st.sampled_from(["wap", "http"]), name=name_st,
+          dt1=st.sampled_from([300, 600, 900]), dt2=st.sampled_from([200, 500, 800]))
+    def slow_client_cycle(self, d, f1, f2, name, dt1, dt2):
+        """a listing is cached, the directory changes, some time passes, and then a client sends its request line and - dt2
+        seconds later - the rest: if the entry is older than the lifetime when the rest has arrived, it is not used"""
+        self._do({"op": "list", "dir": d, "form": f1})
+        self._do({"op": "create", "dir": d, "name": name})
+        self._do({"op": "advance", "dt": dt1, "how": "shift"})
+        self._do({"op": "slowlist", "dir": d, "form": f2, "dt": dt2})
 
     @rule(f1=st.sampled_from(FORMS), f2=st.sampled_from(FORMS), f3=st.sampled_from(FORMS), name=name_st,
           dt1=st.sampled_from([300, 600, 700]), dt2=st.sampled_from([400, 600, 900]), first=st.sampled_from(["/a", "/zalias"]),
